@@ -18,7 +18,7 @@ for d in "${dirs[@]}"; do
   rsync -a --exclude .git /repo/ "$w/repo/"
   if ! (cd "$w/repo" && patch -p1 -s < "/verif/$d/patch.diff"); then echo "$name: PATCH-DOES-NOT-APPLY"; rm -rf "$w"; continue; fi
   for p in $props; do
-    out=$(VERIF_REPO="$w/repo" VERIF_OUT="$w/out" ./bin/vcheck -prop "$p" -tier quick 2>&1); rc=$?
+    out=$(VERIF_REPO="$w/repo" VERIF_OUT="$w/out" ${VCHECK:-./bin/vcheck} -verif /verif -prop "$p" -tier quick 2>&1); rc=$?
     nv=$(echo "$out" | grep -c '^VIOLATION')
     nr=$(echo "$out" | grep '^VIOLATION' | grep -vc 'no-failing-input-found')
     first=$(echo "$out" | grep -m1 '^FAILED-OBLIGATION' | sed 's/.*obligation=//')
